@@ -173,6 +173,12 @@ theorem relocFinish_spec (acc acc' : RelocAcc) (re : Reloc) (v : BitVec 64) (ats
       obtain ⟨new, hn, hd⟩ := write_exact32_vo re.fmt hfmt h8 src.buf buf' re.srcOff v old hw hold' hzc
       exact ⟨new, by rw [hget]; exact hn, by show (if re.fmt.valueSize = 8 then _ else _); rw [if_neg h8]; exact hd⟩
 
+/-- the slot store of `relocTable` on the address-table section -/
+def slotStore (a v : Nat) (t : Section) : Section :=
+  match storeLE (padTo t.buf (a + 8)) a v 8 with
+  | some b => { t with buf := b }
+  | none => t
+
 /-- the address-table form, right after `relocTable`: the rel32 to write reaches the slot, the two bytes before the value word
 are `FF 15` / `FF 25`, and the slot holds the target -/
 def TableFacts (s : State) (acc acc1 : RelocAcc) (re : Reloc) (src : Section) (v : BitVec 64) : Prop :=
@@ -183,7 +189,10 @@ def TableFacts (s : State) (acc acc1 : RelocAcc) (re : Reloc) (src : Section) (v
     (∃ sec1, acc1.secs[re.srcSec]? = some sec1 ∧ sec1.buf[re.srcOff + re.fmt.valueOffset - 2]? = some 0xFF#8 ∧
         sec1.buf[re.srcOff + re.fmt.valueOffset - 1]? = some nb) ∧
     (∀ t0, acc.secs[ats]? = some t0 →
-      ∃ t1, acc1.secs[ats]? = some t1 ∧ loadLE t1.buf (slot * s.arch.regSize) 8 = some (re.payload.toNat % 256 ^ 8))
+      ∃ t1, acc1.secs[ats]? = some t1 ∧ loadLE t1.buf (slot * s.arch.regSize) 8 = some (re.payload.toNat % 256 ^ 8)) ∧
+    (∃ ei buf1, acc.addrTab.findIdx? (fun e => e.addr == re.payload) = some ei ∧ slot = (assignSlot acc ei).2.2 ∧
+      acc1.addrTab = (assignSlot acc ei).1 ∧ acc1.nSlots = (assignSlot acc ei).2.1 ∧
+      acc1.secs = modifySec (setBuf acc.secs re.srcSec buf1) ats (slotStore (slot * s.arch.regSize) re.payload.toNat))
 
 theorem relocValue_src (s : State) (B : BitVec 64) (secs : List Section) (re : Reloc) (src : Section) (h : secs[re.srcSec]? = some src) :
     secOffset secs re.srcSec = src.offset := by unfold secOffset; rw [h]
@@ -273,7 +282,7 @@ theorem relocPrep_spec (s : State) (B : BitVec 64) (acc acc1 : RelocAcc) (re : R
             rw [hfi, hats] at hok
             try dsimp only at hok
             -- name the slot triple
-            generalize assignSlot acc ei = trip at hok
+            generalize htrip : assignSlot acc ei = trip at hok
             obtain ⟨tab, nSlots, slot⟩ := trip
             try dsimp only at hok
             by_cases hv2 : isInt32 (secOffset acc.secs ats + BitVec.ofNat 64 (slot * s.arch.regSize) -
@@ -328,7 +337,7 @@ theorem relocPrep_spec (s : State) (B : BitVec 64) (acc acc1 : RelocAcc) (re : R
                     apply loadLE_congr
                     intro j hj1 _
                     exact hval1 j hj1
-                  · refine ⟨ats, slot, nb, hats, ?_, h2.symm, ?_, ?_, ?_⟩
+                  · refine ⟨ats, slot, nb, hats, ?_, h2.symm, ?_, ?_, ?_, ⟨ei, buf1, hfi, by rw [htrip], by rw [htrip], by rw [htrip], rfl⟩⟩
                     · rw [← h2]; exact hv2
                     · split at hnb
                       · cases hnb; exact .inl rfl
